@@ -192,6 +192,30 @@ def stripBranch (cs : Nib → Node) (v : Option Val) : Node :=
   | [i], none => mergeExt [i] (cs i)
   | _, _ => .branch cs v
 
+/-! Executable form of `stripBranch`: the children function is tabulated first, so that a child
+computed by the batch code (a closure `fun c => … putBatchNode (cs c) …`) is computed once instead of
+on every access. Used by compiled code only (`csimp`); the theorems are about `stripBranch`. -/
+
+/-- children read from a table. -/
+def tabOf (a : Array Node) : Nib → Node := fun i => a.getD i.val .empty
+
+theorem tabOf_ofFn (f : Nib → Node) : tabOf (Array.ofFn f) = f := by
+  funext i; simp [tabOf]
+
+def stripBranchImpl (cs : Nib → Node) (v : Option Val) : Node :=
+  let t := tabOf (Array.ofFn cs)
+  match kids t, v with
+  | [], none => .empty
+  | [], some w => .leaf w
+  | [i], none => mergeExt [i] (t i)
+  | _, _ => .branch t v
+
+@[csimp] theorem stripBranch_eq_impl : @stripBranch = @stripBranchImpl := by
+  funext cs v
+  unfold stripBranchImpl
+  rw [tabOf_ofFn]
+  rfl
+
 /-- weight of a batch: decreases along the recursion of `many`. -/
 def wt (kv : Batch) : Nat := (kv.map fun e => e.1.length + 1).sum
 
